@@ -15,7 +15,7 @@ SHAPES = [
     "single", "pair", "chain", "star", "caterpillar", "recursive", "binary", "neuron",
     "stem", "broom", "highdeg", "bamboo",
 ]
-GEOMS = ["growth", "gauss", "far", "int", "quarter", "tiny", "big", "coincident"]
+GEOMS = ["growth", "gauss", "far", "int", "quarter", "tiny", "big", "coincident", "axis"]
 TYPES = ["soma", "random", "nonsoma"]
 
 
@@ -143,6 +143,14 @@ def positions(rng, pid_sorted: np.ndarray, geom: str) -> np.ndarray:
             steps[rng.random(n) < 0.3] = 0.0
         for i in range(1, n):
             xyz[i] = xyz[pid_sorted[i]] + steps[i]
+        return xyz
+    if geom == "axis":
+        # axis-aligned integer steps: every segment length is an exact small integer in float32
+        xyz[0] = rng.integers(-5, 6, 3)
+        for i in range(1, n):
+            step = np.zeros(3)
+            step[int(rng.integers(0, 3))] = float(rng.integers(1, 5)) * (1 if rng.random() < .5 else -1)
+            xyz[i] = xyz[pid_sorted[i]] + step
         return xyz
     raise ValueError(geom)
 
